@@ -26,13 +26,19 @@ def parseFwd (s : String) : Option FwdSpec :=
     let f := (sp funs ";").map String.toList
     let v := (sp vars ";").map String.toList
     let e : Expose := if kind == "show" then .show_ f v else if kind == "hide" then .hide f v else .all
-    some ⟨if pre == "-" then none else some pre.toList, e, parseWiths withs⟩
+    some ⟨if pre == "-" then none else some pre.toList, e, parseWiths withs, false⟩
+  | [pre, kind, funs, vars, withs, b] =>
+    let f := (sp funs ";").map String.toList
+    let v := (sp vars ";").map String.toList
+    let e : Expose := if kind == "show" then .show_ f v else if kind == "hide" then .hide f v else .all
+    some ⟨if pre == "-" then none else some pre.toList, e, parseWiths withs, b == "b"⟩
   | _ => none
 
 def parseProbe (s : String) : Option Probe :=
   match s.splitOn "." with
   | ["r", ns, k, n] => some (.read (if ns == "-" then none else some ns.toList) (parseKind k) n.toList)
   | ["a", ns, n, v] => v.toNat?.map fun x => .assign ns.toList n.toList x
+  | ["d", ns, n, v] => v.toNat?.map fun x => .assignD ns.toList n.toList x
   | _ => none
 
 def showRes : Res → String
@@ -53,7 +59,8 @@ def handleC37 (quirks : List String) (op : String) (args : List String) : String
       { withUnknownUse := quirks.contains "withUnknownUse", withUnknownForward := quirks.contains "withUnknownForward",
         reconfigureIgnored := quirks.contains "reconfigureIgnored", namespaceRaw := quirks.contains "namespaceRaw",
         prefixFilterSwapped := quirks.contains "prefixFilterSwapped",
-        useAsWithRejected := quirks.contains "useAsWithRejected" }
+        useAsWithRejected := quirks.contains "useAsWithRejected",
+        builtinMarkerLost := quirks.contains "builtinMarkerLost" }
     let ps := (sp probes ",").filterMap parseProbe
     let one (q : ModQuirks) := ";".intercalate (ps.map fun p => showRes (runProbe q sc p))
     one q ++ "\t" ++ one modSpec
